@@ -1034,7 +1034,7 @@ def judge(case, obs, ans, st, shrink_left):
 def count_case(st, case, obs):
     runlib.count_case(st, case, obs)
     if any(x for x in (case['model'].get('calcResFail') or [])):
-        st.count('fail_delivery_case(theorems under [NoFailDeliver] do not apply)')
+        st.count('fail_delivery_case')
     for t in case['tasks']:
         if t.get('multi'):
             st.count('multi_action_task')
